@@ -375,5 +375,8 @@ var c17History = probe.Define("C17", "history", func(t *rapid.T) c17In {
 
 func TestC17(t *testing.T) {
 	c := probe.NewCtx(t, "C17")
+	if c.Shard == 0 {
+		endurance(c, "C17", "protect-unprotect", 70000)
+	}
 	c17History.Run(c, t, c.N(400, 4000))
 }
